@@ -89,11 +89,16 @@ def find_unmarshallable(x):
   """(label, path) of the first node (depth-first, in order) marshal would reject, or None.
   Iterative: the structures can be ~1000 deep and this may run under the production recursion limit."""
   stack = [(x, '', 0, None)]
+  seen = set()
   while stack:
     x, path, depth, parent = stack.pop()
     t = type(x)
     if t in _EXACT:
       continue
+    if t in (list, tuple, dict):
+      if id(x) in seen:          # cyclic or shared structure: already examined
+        continue
+      seen.add(id(x))
     if t in (list, tuple):
       kids = []
       for i, y in enumerate(x):
@@ -130,8 +135,13 @@ def first_difference(a, b):
   """Label of the first node where two encodings differ: '<code of a's node>-><code of b's node>'; a decode
   that hit the recursion limit (node re-encoded as ['E', 'RecursionError', ...]) is labelled as such."""
   stack = [(a, b)]
+  seen = set()
   while stack:
     x, y = stack.pop()
+    if isinstance(x, (list, tuple, dict)):
+      if (id(x), id(y)) in seen:
+        continue
+      seen.add((id(x), id(y)))
     if type(x) is type(y) and isinstance(x, (list, tuple)) and len(x) == len(y) and \
         (not x or pyvals.enc_equal(x[0], y[0]) or not isinstance(x[0], str)):
       stack.extend(reversed(list(zip(x, y))))
@@ -345,8 +355,13 @@ def _loose_equal(a, b):
   """Equality of two engine-side reprs that may contain unmarshallable nodes (compared with ==, failing that
   by identity). Iterative: reprs can be ~1000 deep."""
   stack = [(a, b)]
+  seen = set()
   while stack:
     x, y = stack.pop()
+    if isinstance(x, (list, tuple, dict)):
+      if (id(x), id(y)) in seen:
+        continue
+      seen.add((id(x), id(y)))
     if isinstance(x, (list, tuple)) and isinstance(y, (list, tuple)):
       if len(x) != len(y):
         return False
